@@ -210,6 +210,9 @@ func runRetryCase(r *vrun.Run, c retryCase) {
 		case 'L':
 			armed = true
 			e.err = mkErr(i, true)
+		case 'S':
+			// the context ends while this attempt is in flight, and the attempt succeeds
+			cancelFn()
 		}
 		log = append(log, e)
 		mu.Unlock()
@@ -338,14 +341,14 @@ func judgeRetry(r *vrun.Run, c retryCase, log []inv, err error, panicked any, ti
 				r.Violation(sig("context-done-by-earlier-attempt", "invoked-after-context-done"),
 					fmt.Sprintf("%s: invocation #%d started after an earlier invocation had cancelled the context (script %q, RetryMax %d, %s min=%dns max=%dns, wait class %s)", fam, i+1, c.Script, c.Policy.RetryMax, c.Policy.Kind, c.Policy.WaitMinNs, c.Policy.WaitMaxNs, waitClass(c.Policy)), wit(nil))
 			}
-			if prev.Outcome == "O" {
+			if prev.Outcome == "O" || prev.Outcome == "S" {
 				r.Violation(sig("after-success", "invoked-again"), fmt.Sprintf("%s: invocation #%d after a success (script %q)", fam, i+1, c.Script), wit(nil))
 			}
 			if prev.Outcome == "N" {
 				r.Violation(sig("after-non-retriable-error", "invoked-again"), fmt.Sprintf("%s: invocation #%d after a non-retriable error (script %q)", fam, i+1, c.Script), wit(nil))
 			}
 		}
-		if e.Outcome == "O" {
+		if e.Outcome == "O" || e.Outcome == "S" {
 			sawOK = true
 		}
 	}
@@ -354,7 +357,7 @@ func judgeRetry(r *vrun.Run, c retryCase, log []inv, err error, panicked any, ti
 	}
 	ctxDone := c.PreDone
 	for _, e := range log {
-		if e.Outcome == "C" || e.Fired {
+		if e.Outcome == "C" || e.Outcome == "S" || e.Fired {
 			ctxDone = true
 		}
 	}
@@ -364,6 +367,8 @@ func judgeRetry(r *vrun.Run, c retryCase, log []inv, err error, panicked any, ti
 		switch last.Outcome {
 		case "O":
 			endReason = "success"
+		case "S":
+			endReason = "success-while-the-context-ended"
 		case "N":
 			endReason = "non-retriable"
 		case "C":
@@ -505,6 +510,8 @@ func buildRetryCases(r *vrun.Run) []retryCase {
 					}
 					if strings.Contains(s, "C") && rng.IntN(2) == 0 {
 						c.Script = strings.Replace(s, "C", "L", 1)
+					} else if strings.Contains(s, "C") && rng.IntN(3) == 0 {
+						c.Script = strings.Replace(s, "C", "S", 1)
 					}
 					cases = append(cases, c)
 					idx++
